@@ -16,7 +16,7 @@ func init() {
 			c.Do("C11.b", "L8/L1 external lengths checked before indexing", 2, func() { clExternalLengths(c); clLoaderSliceDiscipline(c) })
 			c.Do("C11.c", "L10 loader cannot wedge", 2, func() { clNoWorkerWedge(c, c.P.Func("nitro", "Nitro", "LoadFromDisk")) })
 			c.Do("C11.d", "L2 verification precedes acceptance", 6, func() { clVerificationPrecedesAcceptance(c) })
-			c.Do("C11.e", "L1 terminator/EOF discipline", 4, func() { clDecodeItemDiscipline(c) })
+			c.Do("C11.e", "L1 terminator/EOF discipline", 4, func() { clDecodeItemDiscipline(c); clTerminatorAlways(c) })
 		},
 	})
 }
